@@ -43,6 +43,8 @@ SEARCH_ALWAYS_IN_THOROUGH = False
 ALPHA_FULL = list('CcNOnoBSlrFH[]()12%0=#-/\\.:+@;!,~>^| 9')
 ALPHA_CORE = list('CcNOl()12%=-/.[]@H+>')
 ALPHA_BRACKET = list('19C0cHNasel@+-2:t4Z')
+ALPHA_STEREO = list('C=/\\()1')
+ALPHA_STEREO_R = ['C', 'C', 'C', '=', '=', '/', '\\', '(', ')', '1', '1', '2', 'N', 'c', '[C@H]', '[C@@]', '.', '#', 'F']
 
 
 # ------------------------------------------------------------------------------------------------
@@ -373,6 +375,13 @@ def streams(ctx):
     for s in all_strings(ALPHA_CORE, n_core):
         if len(s) > n_full:
             yield f'exhaustive-core<={n_core}', s
+    n_st = 5 if quick else 7
+    for s in all_strings(ALPHA_STEREO, n_st):
+        if s[0] in 'CN[' and ('/' in s or '\\' in s or '@' in s):
+            yield f'exhaustive-stereo<={n_st}', s
+    for _ in range(4000 if quick else 60000):
+        k = rng.randint(5, 14)
+        yield 'random-stereo', rng.choice('CN') + ''.join(rng.choice(ALPHA_STEREO_R) for _ in range(k))
     n_br = 3 if quick else 5
     for s in all_strings(ALPHA_BRACKET, n_br):
         yield f'exhaustive-bracket<={n_br}', '[' + s + ']'
